@@ -199,7 +199,7 @@ class Array(TypeDefinition):
     unpacker = attrs.field(init=False, type=Callable[[bytes], tuple[int, Any]])
 
     def __attrs_post_init__(self):
-        if issubclass(self.type, RecordWithPresentBit):
+        if inspect.isclass(self.type) and issubclass(self.type, RecordWithPresentBit):
             record_cls = super(RecordWithPresentBit, self.type)
             self.packer, self.unpacker = record_cls.to_bytes, record_cls.from_bytes
         else:
